@@ -58,3 +58,12 @@ claim('C05', 'Lean 4 proofs (zone cursor invariant, confinement, zone-relative v
       'is accepted iff its name is new and it is non-inverted, inside the address width and inside GLOBAL. Each run compares '
       'accept/reject and image of the real CLI with the model on zone-heavy programs.',
       NOTE + ' Two predefined zones with the same name: the later one wins (mirrored; outside the property statement).')
+
+claim('C08', 'Lean 4 refinement proof (condition-stack machine = block-tree semantics) + differential correspondence',
+      'Kernel-checked theorems: for every list of well-nested blocks, any nesting depth and any symbol history, the condition-stack '
+      'machine run over the directive stream selects exactly the lines and symbol definitions the block-tree semantics selects '
+      '(first branch whose condition held when reached, else #else; nothing inside an unselected branch is selected, evaluated or '
+      'defined) and restores the stack; stray #else/#elif/#endif and #else/#elif after #else are rejected; #ifdef tests definedness '
+      'only; numeric conditions compare integers. Each run compares the image (markers between all directives) of the real CLI with '
+      'the tree semantics and with the stack machine.',
+      NOTE + ' String-mode comparisons are generated with single-token sides only.')
